@@ -19,8 +19,9 @@ CFG = dict(
          "(signed records whose pre- and/or post-trigger samples cancel to sum 0, all-zero and constant records, peak exactly at the baseline), "
          "mostly with projectors loaded; 6% of the iterations are HISTORIES on one processor (load a model, analyse, load a revised model "
          "of the same shape and description / another description / another number of components / a refused shape / remove / pulse-length "
-         "request, analyse again - judged against the last model the code reported as loaded), and the pipeline cases re-load models between "
-         "blocks. "
+         "request, REFUSED requests of every kind (bad projector width; good projectors + bad basis height/width; same/other nbases; as the "
+         "first request; after a removal), analyse again - judged against the last ACCEPTED model or 'no model'; a panic inside AnalyzeData "
+         "is caught and is a violation), and the pipeline cases re-load models between blocks. "
          "Every float64 result crosses as its IEEE bit pattern; the Lean driver turns it into an exact rational, evaluates the DEFINITIONS "
          "exactly (Rat) on the integer record and the exact value of every matrix entry and demands agreement within the stated rounding "
          "tolerances (RMS and residual std-dev on squares); NaN/Inf where the definition is finite is a violation; the float32 values of the "
@@ -85,6 +86,8 @@ THEOREMS = [
     ("DastardV.Props.C13", "DastardV.C13.C13_oracle_accepts_exact"),
     ("DastardV.Props.C13", "DastardV.C13.analyze_record_only"),
     ("DastardV.Props.C13", "DastardV.C13.analyze_record_only_len"),
+    ("DastardV.Props.C13", "DastardV.C13.C13_refused_model_is_identity"),
+    ("DastardV.Props.C13", "DastardV.C13.C13_accepted_model_is_installed"),
     ("DastardV.Lemmas.ComposeAnalysis", "DastardV.Compose.chanRecs_signed"),
     ("DastardV.Lemmas.ComposeAnalysis", "DastardV.Compose.record_is_stream_excerpt"),
     ("DastardV.Lemmas.ComposeAnalysis", "DastardV.Compose.analysis_of_stream_excerpt"),
